@@ -90,6 +90,34 @@ Fixpoint run_ads (h : astate -> ad -> node -> astate * list (node * ad))
   | (a, r) :: l' => run_ads h (fst (h st a r)) l'
   end.
 
+(* ---- the node's own listeners (repaired tree) ----
+   AddLocalServiceAdvertisement: list the own service with the current time, forget its
+   withdrawal (the periodic re-advertisement that tells the neighbours runs later, on a timer);
+   RemoveLocalServiceAdvertisement: unlist it, remember the withdrawal, and flood the
+   withdrawal to every connection at once. *)
+Definition local_add (st : astate) (svc t body : N) : astate :=
+  set_ads st (set2 (as_self st) svc (t, body) (as_ads st)) (del2 (as_self st) svc (as_tomb st)).
+
+Definition local_remove (st : astate) (svc t : N) : astate * list (node * ad) :=
+  let st' := set_ads st (del2 (as_self st) svc (as_ads st)) (set2 (as_self st) svc t (as_tomb st)) in
+  (st', map (fun c => (c, {| a_node := as_self st; a_svc := svc; a_time := t; a_cancel := true; a_body := 0 |}))
+            (as_conns st)).
+
+Inductive ad_event :=
+| EvRecv (a : ad) (recv : node)
+| EvLocalAdd (svc t body : N)
+| EvLocalRemove (svc t : N).
+
+Definition ad_step (st : astate) (e : ad_event) : astate * list (node * ad) :=
+  match e with
+  | EvRecv a r => handle_ad st a r
+  | EvLocalAdd svc t body => (local_add st svc t body, [])
+  | EvLocalRemove svc t => local_remove st svc t
+  end.
+
+Fixpoint run_events (st : astate) (l : list ad_event) : astate :=
+  match l with [] => st | e :: l' => run_events (fst (ad_step st e)) l' end.
+
 (* is (n, s) listed, and with which time *)
 Definition listed (st : astate) (n s : N) : option (N * N) := get2 n s (as_ads st).
 
@@ -129,9 +157,27 @@ Fixpoint ads_run_check (h : astate -> ad -> node -> astate * list (node * ad))
     beq_ads (as_ads st') (ao_ads o) && beq_adrel rel (ao_relays o) && ads_run_check h st' l'
   end.
 
+Fixpoint ev_run_check (st : astate) (l : list (ad_event * ad_obs)) : bool :=
+  match l with
+  | [] => true
+  | (e, o) :: l' =>
+    let '(st', rel) := ad_step st e in
+    beq_ads (as_ads st') (ao_ads o) && beq_adrel rel (ao_relays o) && ev_run_check st' l'
+  end.
+
+Record ev_case := { ec_conns : list node; ec_hist : list (ad_event * ad_obs) }.
+
 Record ads_case := { ac_conns : list node; ac_hist : list (ad * node * ad_obs) }.
 Definition ads_init (conns : list node) : astate :=
   {| as_self := 1; as_conns := conns; as_ads := []; as_tomb := [] |}.
 Definition ads_check (c : ads_case) : bool := ads_run_check handle_ad (ads_init (ac_conns c)) (ac_hist c).
+Definition ev_check (c : ev_case) : bool := ev_run_check (ads_init (ec_conns c)) (ec_hist c).
 Definition ads_check_pinned (c : ads_case) : bool :=
   ads_run_check handle_ad_pinned (ads_init (ac_conns c)) (ac_hist c).
+
+(* both kinds of cases of the C18 harness *)
+Inductive c18_case := CHist (c : ads_case) | CEv (c : ev_case).
+Definition c18_check (c : c18_case) : bool :=
+  match c with CHist h => ads_check h | CEv e => ev_check e end.
+Definition c18_check_pinned (c : c18_case) : bool :=
+  match c with CHist h => ads_check_pinned h | CEv _ => true end.
